@@ -282,6 +282,59 @@ fn check_shape(shape: &Shape, thorough: bool, r: &mut Report) {
     }
 }
 
+/// the undeclared member's *name* as a dimension of its own: lengths around every plausible
+/// buffer size, names that need escapes (so no reader can borrow them), non-ASCII, empty,
+/// look-alikes of declared names — in the root object, below a list, below a map value, below
+/// a newtype; first and last position; every path (str / slice / reader, JSON and Smile)
+fn name_catalogue() -> Vec<&'static str> {
+    let leak = |s: String| -> &'static str { Box::leak(s.into_boxed_str()) };
+    let mut out: Vec<&'static str> = vec!["", " ", "A", "aa", "a ", "b\u{0}", "a\nb", "tab\there", "quo\"te", "back\\slash", "gr\u{f6}\u{df}e", "\u{10000}", "type", "a.b", "a/b", "a`b`"];
+    for n in [15usize, 16, 31, 32, 33, 63, 64, 65, 66, 127, 128, 129, 200, 255, 256, 257, 1000, 4095, 4096, 4097, 70000] {
+        out.push(leak(format!("n{}", "x".repeat(n - 1))));
+    }
+    // long and not borrowable (an escape in the middle), long and non-ASCII
+    out.push(leak(format!("{}\"{}", "q".repeat(40), "r".repeat(40))));
+    out.push(leak(format!("{}\n{}", "q".repeat(64), "r".repeat(64))));
+    out.push(leak("\u{e9}".repeat(40)));
+    out.push(leak("\u{20ac}".repeat(30)));
+    out
+}
+
+fn check_names(r: &mut Report) {
+    let i32s = Shape::Leaf(Leaf::I32);
+    let obj = Shape::Struct("S", vec![("a", i32s.clone()), ("b", i32s.clone())]);
+    let shapes = vec![
+        obj.clone(),
+        Shape::seq(obj.clone()),
+        Shape::map(Leaf::Str, obj.clone()),
+        Shape::opt(obj.clone()),
+        Shape::NewtypeStruct("NT", Box::new(obj.clone())),
+        Shape::Struct("O", vec![("inner", obj.clone()), ("z", i32s.clone())]),
+    ];
+    let injected = injected_values();
+    for shape in &shapes {
+        let val = space::default_val(shape);
+        let val = space::one_hot(shape).into_iter().next().unwrap_or(val);
+        let n = count_structs(shape);
+        for name in name_catalogue() {
+            for target in 0..n {
+                for pos in [0usize, usize::MAX] {
+                    let inj = Injection { target, at: pos, name, shape: &injected[4].1, val: &injected[4].2 };
+                    let mut hits = 0;
+                    let (s2, v2) = augment(shape, &val, &mut 0, &inj, &mut hits);
+                    if hits == 0 {
+                        continue;
+                    }
+                    r.states += 1;
+                    if let Some(doc) = render(&s2, &v2) {
+                        judge(r, shape, &val, &[name], "name-dimension", &doc, "name");
+                    }
+                }
+            }
+        }
+    }
+}
+
 pub fn shape_space(args: &Args) -> Vec<Shape> {
     use crate::dynamic::CONJURE_LEAVES;
     // leaves reduced to the ones with distinct wrapper behaviour; keys to three kinds
@@ -337,6 +390,9 @@ pub fn run(args: &Args) -> Report {
         if want.is_empty() {
             static_twins(&mut report);
         }
+        if v["case"]["injected"] == "name-dimension" {
+            check_names(&mut report);
+        }
         report.exhaustive = false;
         return report;
     }
@@ -359,6 +415,7 @@ pub fn run(args: &Args) -> Report {
         });
     report.merge(total);
     static_twins(&mut report);
+    check_names(&mut report);
     report.extra.insert("shapes_with_objects".into(), json!(shapes.len()));
     report.bound("depth", args.tier.pick(3, 4));
     report.bound("positions", json!(["first", "between", "last"]));
